@@ -5,7 +5,7 @@
 //   execAcc         for every exec method (and the helper methods on instruction types it calls): every
 //                   WRITE through the receiver, every ESCAPE of a reference-typed field of the receiver (a map,
 //                   slice, pointer, func … stored somewhere or passed to a call), every ADDRESS-OF a field and every
-//                   method CALL on a reference-typed field — with the guard (enclosing conditions) it happens under
+//                   method CALL on a reference-typed field — with the guard (innermost enclosing condition) it happens under
 //   progFieldWrites every assignment anywhere in the package whose target is a field named like a field of
 //                   Program that only Program has (`code`, `srcMap`), with file and function
 //   namesWriters    every function that writes a `names` map (s.names[k]=…, delete(s.names,k), s.names = …)
@@ -422,8 +422,14 @@ func (w *execWalker) localWrite(e ast.Expr) bool {
 	}
 }
 
+// guardText: the INNERMOST enclosing condition only.  The outer conditions decide whether the statement is reached at
+// all, the innermost one is what makes an escape harmless (`!($.extensible)` for a names map); pinning the whole chain
+// made the tie fire on harmless changes of an outer condition.
 func (w *execWalker) guardText(guards []string) string {
-	return strings.Join(guards, " && ")
+	if len(guards) == 0 {
+		return ""
+	}
+	return guards[len(guards)-1]
 }
 
 func (w *execWalker) render(e ast.Node) string {
